@@ -25,6 +25,16 @@ CHECKS = {
          "Rule files are generated from the documented grammar together with their AST, rendered under independently switchable whitespace features, comment placements and hostile string contents, parsed by parse_rules, parse_with_modules and (rule by rule) parse_rule, and compared piece by piece (count, order, name, salience, each attribute, flattened condition tree with every leaf, action list). Failing files are shrunk over rules, layout features, comments, attributes, condition, actions and string contents; the signature is the set of hostile features that survived (or, on plain grammar, the clause and remaining structure). Held = every explored file parsed equal to what was written, apart from the listed known findings.",
          "The expected AST encodings (bare path = Value::Expression, arithmetic leaf = one Test leaf with the same tokens, flattened And/Or) are the harness's reading of the parser's contract; Rule.description is not compared. A failing file that still contains a feature listed as a known finding is attributed to that finding (a tainted file proves nothing new); files without such features are always reported in full.",
          "DESIGN.md §5 C04"),
+ "C06": ("exploration",
+         "recorder-wrapped action closures, three-valued reference evaluator and shadow working memory (history monitor) over exhaustive and random insert/update/retract/fire_all/reset histories of GRL-loaded single-type rules",
+         "Generates single-type typed-core rules as GRL text and loads them through the real parser and loader (hook H3); every action is wrapped with a recorder and histories are run on IncrementalEngine. Exhaustive for two 2-rule programs over a 12-operation alphabet to the stated length, random up to 12 ops, 6 facts, 3 types and 4 rules, including actions that modify or retract the matched fact. Every firing is judged on the matched fact's contents in the copy handed to the action; the first fire_all of Log-only no-loop histories must fire exactly the satisfied rules once; the four working-memory views are compared with a shadow for every handle ever issued after every op; handles are pairwise distinct. Held = no explored history broke a clause apart from the pinned findings.",
+         "The matched fact is what the engine injects for the rule's type. 'Satisfies' is typed; absent fields and kind mismatches are Undefined and skipped (counted). HashMap order is uncontrolled, so replays repeat 32 times. Join rules, accumulate/exists/forall and stream nodes are not generated.",
+         "DESIGN.md §5 C06"),
+ "C07": ("exploration",
+         "API-level trace monitor of AdvancedAgenda against a shadow multiset with limbo (exhaustive and random), logical-step termination monitor in child processes for five fire_all entry points, engine-level no-loop / salience-order / bound monitors on IncrementalEngine histories",
+         "Part A drives AdvancedAgenda with every sequence of a 21-operation alphabet to the stated length plus random sequences and checks each pop against a shadow multiset (no eligible pending activation of the focused group with a larger (salience, earlier-created) key; no-loop and activation-group exclusivity between resets). Part B runs rule programs incl. always-true rules without no-loop on IncrementalEngine, TypedReteUlEngine, ReteUlEngine and the free fire_rete_ul_rules* functions in child processes; action closures count executions and unwind beyond 100 x 1000 x #rules (logical 'does not return'); documented iteration bounds are checked. Part C checks no-loop, salience order and the bound on IncrementalEngine histories. Held = no explored sequence or program broke a clause apart from the pinned findings.",
+         "'Earlier-created' is the order of Activation::new calls with forced distinct instants (equal-instant ties are not exercised). Lock-on-active, auto-focus, ruleflow groups and non-Salience strategies are outside the statement. Action-free spinning can only be inconclusive under the CPU back-stop (none occurred).",
+         "DESIGN.md §5 C07"),
  "C12": ("exploration",
          "online step monitors (before/after contents, no carried model) + reference folds over exhaustive short and seeded random event sequences; wall clock injected through an LD_PRELOAD shim for the clock-driven node",
          "Drives TimeWindow (add_event, record), WindowManager and WindowedStream in tumbling mode, and StreamAlphaNode under a virtual clock with every event sequence up to a stated length over a small timestamp alphabet around the window boundaries (x durations 1-10 ms x caps 1, 2, 100) and seeded random sequences up to length 12 (in order, reversed, shuffled, late, duplicate, boundary instants; numeric, string, bool, missing payloads). After every call it checks acceptance / aligned placement / no stale retained event / no in-span event lost except oldest-first cap drops on the contents observed before and after, and count, sum, average, min, max through every aggregation API against a fold over exactly the window's events(). Held = no step of any explored sequence broke a clause, apart from the listed known findings.",
